@@ -171,6 +171,8 @@ def benign_twin(doc):
 _TEX_ESC = {
     "\\": r"\textbackslash{}", "{": r"\{", "}": r"\}", "$": r"\$", "&": r"\&",
     "#": r"\#", "%": r"\%", "_": r"\_", "^": r"\^{}", "~": r"\~{}",
+    # these accented letters are always written with accent commands (the others literally)
+    "\u00e1": r"\'a", "\u00f3": r"\'o", "\u00f6": r'\"o', "\u00e0": r"\`a", "\u00f1": r"\~n", "\u00e7": r"\c{c}",
 }
 
 
@@ -202,7 +204,7 @@ def _inline(it):
     if t == "verb":
         s = it["leaf"]["s"]
         d = _verb_delim(s)
-        return r"\verb%s%s%s" % (d, s, d)
+        return r"\verb%s%s%s%s" % ("*" if it.get("star") else "", d, s, d)
     if t == "fn":
         return r"\footnote{%s}" % tex_escape(it["leaf"]["s"])
     if t == "fnc":
@@ -288,9 +290,10 @@ def _block(b, out):
         out.append(r"\end{thm}")
         out.append("")
     elif k == "verbatim":
-        out.append(r"\begin{verbatim}")
+        env = "verbatim*" if b.get("star") else "verbatim"
+        out.append(r"\begin{%s}" % env)
         out.append(b["leaf"]["s"])
-        out.append(r"\end{verbatim}")
+        out.append(r"\end{%s}" % env)
         out.append("")
     elif k == "quote":
         out.append(r"\begin{quote}")
@@ -706,6 +709,8 @@ def doc_strategy(leaf=None, title_leaf=None, max_units=8, max_blocks=3, classes=
             return {"t": t, "to": draw(st.integers(0, 30)), "leaf": draw(tag_leaf())}
         if t == "fnc":
             return {"t": "fnc"}
+        if t == "verb":
+            return {"t": t, "leaf": draw(leaf()), "star": draw(st.integers(0, 3)) == 0}
         if t == "idx" and sorted_index:
             return {"t": t, "leaf": draw(leaf()), "sort": True}
         if t == "idx" and mixed_index and draw(st.booleans()):
@@ -748,6 +753,8 @@ def doc_strategy(leaf=None, title_leaf=None, max_units=8, max_blocks=3, classes=
         if k == "thm":
             return {"k": "thm", "title": draw(leaf()) if draw(st.booleans()) else None,
                     "label": draw(st.booleans()), "leaf": draw(leaf())}
+        if k == "verbatim":
+            return {"k": k, "leaf": draw(leaf()), "star": draw(st.integers(0, 3)) == 0}
         return {"k": k, "leaf": draw(leaf())}
 
     @st.composite
